@@ -883,6 +883,29 @@ struct Extractor
                     if (p.ok)
                         o.raw("path", pathJson(p));
                 }
+                // constant-folded enumerator (e.g. `P == pre ? a : b` in an
+                // instantiation)
+                if (!rv->isValueDependent()
+                    && rv->getType()->isEnumeralType()
+                    && !isa_and_nonnull<DeclRefExpr>(sv))
+                {
+                    Expr::EvalResult r;
+                    if (rv->EvaluateAsInt(r, ctx, Expr::SE_NoSideEffects))
+                    {
+                        if (auto* et = rv->getType()->getAs<EnumType>())
+                        {
+                            for (auto* ec : et->getDecl()->enumerators())
+                            {
+                                if (llvm::APSInt::isSameValue(ec->getInitVal(),
+                                                              r.Val.getInt()))
+                                {
+                                    o.str("enum", patName(ec));
+                                    break;
+                                }
+                            }
+                        }
+                    }
+                }
             }
             o.num("id", idOf(s));
             ev.push_back(o.done());
